@@ -251,7 +251,7 @@ def check(ctx: Ctx) -> None:
     f_nlo = repo.func(f"{GB}.ChannelFactory._no_longer_opened")
     with ctx.obligation("C10.d", "endmarker-once") as ob:
         n = 0
-        for fi in (m for m in repo.cls("ChannelFactory").methods.values()):
+        for fi in (m for m in repo.scan_funcs() if m.cls is not None and m.cls.name == "ChannelFactory"):
             cf = None
             for c in repo.calls_in(fi):
                 if isinstance(c.func, ast.Name) and c.func.id == "callback" and c.args and unparse(c.args[0]) == "endmarker":
